@@ -63,6 +63,8 @@ class C10(Prop):
                   "The forwarder loop (forwarder/sync.rs Forwarder::run, incl. the lifetime of FlushState and the UDP send) is not modelled; it is "
                   "exercised end to end by a real exporter built with DogStatsDBuilder against a harness UDP socket in both tiers (judged per key: "
                   "sums, exactly one closing zero, gauge in every flush, histogram values once, timestamp iff Aggressive). "
+                  "Read-modify-write steps split without a new yield point are invisible to schedule replay; they are covered by the free-running "
+                  "engines only (counter stress, histogram stress, barrier-released absolute() rounds on one counter). "
                   "Histogram record racing a flush is only covered by the free-running stress (no value twice, none fabricated, "
                   "never-sent values within recorders x drains = open finding C10-record-vs-flush-late-claim inherited from C05); the "
                   "model's histogram is a sequential bag. The "
@@ -227,6 +229,7 @@ class C10(Prop):
         viol += self._hist_stress(ctx, core, big)
         viol += self._e2e(ctx, core, big)
         viol += self._stream(ctx, core, big)
+        viol += self._abs_rounds(ctx, core, big)
         probe = self.gen(core.Rng(ctx["seed"]), self.quick_cases if not big else self.thorough_cases)
         rel = tel = 0
         for c in probe:
@@ -331,6 +334,38 @@ class C10(Prop):
                                   datagrams=[d.decode("utf-8", "replace") for d in dgs][:80])))
         ctx["coverage"]["e2e_rounds"] = len(confs)
         ctx["coverage"]["e2e_datagrams"] = ndg
+        return viol
+
+    def _abs_rounds(self, ctx, core, big):
+        """free-running, barrier-released rounds of absolute() on ONE counter (no scheduler): (mode 0) the counter is re-based
+        sequentially first, then several threads publish distinct increasing absolutes (each publish takes the next ticket, so all threads write at the frontier) while one thread flushes in a loop - no
+        increment runs, so no re-basing absolute races anything and neither open class applies: no delta and no prefix sum of
+        deltas may exceed largest value - base (current never moves backwards), and at quiescence the deltas add up to exactly
+        that; (mode 1) one thread publishes absolutes while others increment, nothing flushes during the round: at quiescence
+        the delta must not exceed everything added.  Catches read-modify-write steps split without a new yield point."""
+        confs = [(200, 4, 500, 0), (150, 3, 700, 0), (150, 3, 300, 1)]
+        if big:
+            confs += [(300, 4, 800, 0), (200, 2, 1000, 0), (200, 4, 300, 1)]
+        lines = ["A %d %d %d %d" % c for c in confs]
+        rc, outs, err = core.run_impl(ctx["binpath"], lines, timeout=300)
+        if rc != 0 or len(outs) != len(lines):
+            raise core.MachineryBroken("absolute rounds driver failed: rc=%s %s" % (rc, err[-500:]))
+        viol, cov = [], ctx["coverage"]
+        rounds = during = nonzero = 0
+        for conf, line in zip(confs, outs):
+            head, _, first = line.partition("|")
+            f = head.split()
+            r, bad, dur, nz, nd = (int(x) for x in f[1:6])
+            rounds += r
+            during += dur
+            nonzero += nz
+            if bad:
+                viol.append(("stress", "concurrent absolute() rounds on one counter (rounds=%d publishers=%d values/thread=%d mode=%d): %d rounds violate the "
+                             "property, first: %s" % (conf[0], conf[1], conf[2], conf[3], bad, first.strip()),
+                             dict(stress_line="A %d %d %d %d" % conf, driver_out=line[:400])))
+        cov["abs_rounds"] = rounds
+        cov["abs_rounds_flushes_while_publishing"] = during
+        cov["abs_rounds_nonzero_deltas_while_publishing"] = nonzero
         return viol
 
     def _stream(self, ctx, core, big):
